@@ -91,6 +91,8 @@ func NewQuery(sql string) (*Command, error) {
 }
 
 func QuoteString(str string) string {
+	// the parser this text is handed to reads backslash escapes inside string literals
+	str = strings.ReplaceAll(str, "\\", "\\\\")
 	return "'" + strings.ReplaceAll(str, "'", "''") + "'"
 }
 
